@@ -16,6 +16,11 @@ ORACLES = {
         'stdlib::raise_zero_division': ['stdlib::py_mod_i64', 'stdlib::py_floor_div_i64', 'stdlib::py_mod', 'stdlib::py_floor_div', 'stdlib::py_div'],
         'IncanError::zero_division': ['stdlib::py_mod_i64', 'stdlib::py_div'],
         'IncanError::new': ['stdlib::py_mod_i64', 'stdlib::py_div'],
+        'core::py_mod_f64_impl': ['core::py_mod_f64_impl'],
+        'stdlib::py_mod_f64_impl': ['stdlib::py_mod_f64', 'stdlib::py_mod'],
+        'stdlib::py_mod_f64': ['stdlib::py_mod_f64'],
+        'stdlib::py_floor_div_f64': ['stdlib::py_floor_div_f64'],
+        'stdlib::py_mod': ['stdlib::py_mod'], 'stdlib::py_floor_div': ['stdlib::py_floor_div'], 'stdlib::py_div': ['stdlib::py_div'],
         '*': ['core::py_mod_i64_impl', 'core::py_floor_div_i64_impl', 'stdlib::py_mod_i64', 'stdlib::py_floor_div_i64', 'stdlib::py_mod',
               'stdlib::py_floor_div', 'stdlib::py_div', 'core::py_mod_f64_impl', 'stdlib::py_mod_f64', 'stdlib::py_floor_div_f64'],
     },
@@ -96,6 +101,7 @@ def find_counterexample(pid, failure, root, build_dir, tier):
     table = ORACLES.get(pid, {})
     fn = failure.function
     base = fn.replace('__canary', '')
+    base = base.split('<')[0].split(' (')[0]
     oracles = table.get(base) or table.get(base.split('::', 1)[-1]) or table.get('*', [])
     # a counterexample delivered by the verifier (Kani concrete playback), decoded by kani_run
     given = None
@@ -133,7 +139,7 @@ def find_counterexample(pid, failure, root, build_dir, tier):
             return {'counterexample': {'oracle': o, 'args': c.get('args'), 'observed': c.get('observed'), 'expected': c.get('expected'),
                                        'what': c.get('what'), 'class': c.get('class'),
                                        'source': f'native search over a boundary grid and pseudo-random inputs (seed {seed}, {v.get("tried")} cases) '
-                                                 f'on the real code (release profile); Verus gives no model'},
+                                                 f'on the real code (release profile); the verifier gave no model, or its model did not replay'},
                     'replayed_on_real_code': True}
     return None
 
